@@ -1,14 +1,34 @@
 (* GetGuard.v — C35: HTTP GET requests never execute mutations.
 
    Thin model.  What the repository owns on this path is small: each
-   integration's GET branch decodes the query string into a Request
+   integration's GET branch decodes the raw query string into a Request
    (async_graphql::http::parse_query_string, or rocket's GraphQLQuery form) and
    hands it to Executor::execute / execute_batch.  Whether an operation-type
-   test lies on that path is re-extracted from the source text on every run
-   (tools/factsgen/getguard.py -> GetGuardGen.v).  The executor side is
-   prepare_request's choice of the operation (src/schema.rs) followed by
-   execute_once: a mutation operation runs the resolver of each of its root
-   fields.  Executable, no proofs (GetGuardProofs.v). *)
+   test lies on that path, and the wire keys of the decoder's fields, are
+   re-extracted from the source text on every run (tools/factsgen/getguard.py
+   -> GetGuardGen.v).
+
+   Decoder side (src/http/mod.rs:24-55): serde_urlencoded over the
+   application/x-www-form-urlencoded pairs of the raw query string (split at
+   '&', empty pieces skipped, split at the first '=', '+' -> ' ', %XX ->
+   byte), one struct field per key (unknown keys ignored, a key seen twice is
+   an error, rename and alias name the same field), [query] defaults to "",
+   an Option<String> field is Some of the value WHATEVER the value is (the
+   empty string included): the operation name reaches the Request verbatim.
+
+   Executor side: prepare_request's choice of the operation
+   (src/schema.rs:906-931: with a name the document must hold a named
+   operation of exactly that name, the single-operation shortcut applies only
+   when the name is absent) followed by execute_once: a mutation operation
+   runs the resolver of each of its root fields.
+
+   Not modelled: the GraphQL parser (the document is the real parser's output
+   for the decoded query, None = syntax error), validation (generated
+   documents are valid for the harness schema), the JSON values of
+   `variables` / `extensions` (generated ones are valid JSON objects; resolver
+   runs do not depend on them), UTF-8 repair of undecodable bytes (generated
+   values decode to valid UTF-8; strings are compared as byte lists).
+   Executable, no proofs (GetGuardProofs.v). *)
 From AG Require Export Base Doc.
 From AGgen Require Export GetGuardGen.
 Open Scope N_scope.
@@ -16,15 +36,175 @@ Open Scope N_scope.
 (* an operation-type test somewhere between the GET handler and the executor *)
 Definition get_guard (i : integ) : bool := get_guard_local_gen i || get_guard_central_gen.
 
-Definition opname_eqb (a : option name) (n : name) : bool :=
-  match a with Some x => name_eqb x n | None => false end.
+(* ------------------------------------------------- the wire: query string -- *)
+Definition bytes := list N.
+Definition bytes_eqb (a b : bytes) : bool := list_eqb N.eqb a b.
+
+Definition c_amp : N := 38.   (* & *)
+Definition c_eq : N := 61.    (* = *)
+Definition c_plus : N := 43.  (* + *)
+Definition c_pct : N := 37.   (* % *)
+Definition c_sp : N := 32.
+
+(* every piece between separators, empty ones included *)
+Fixpoint split_all (sep : N) (l : bytes) : list bytes :=
+  match l with
+  | [] => [[]]
+  | c :: r =>
+      if c =? sep then [] :: split_all sep r
+      else match split_all sep r with
+           | s :: ss => (c :: s) :: ss
+           | [] => [[c]]
+           end
+  end.
+
+(* splitn(2, sep): what precedes the first separator, and what follows it *)
+Fixpoint split_first (sep : N) (l : bytes) : bytes * option bytes :=
+  match l with
+  | [] => ([], None)
+  | c :: r =>
+      if c =? sep then ([], Some r)
+      else let '(a, b) := split_first sep r in (c :: a, b)
+  end.
+
+Definition hexval (c : N) : option N :=
+  if (48 <=? c) && (c <=? 57) then Some (c - 48)
+  else if (65 <=? c) && (c <=? 70) then Some (c - 55)
+  else if (97 <=? c) && (c <=? 102) then Some (c - 87)
+  else None.
+
+Definition replace_plus (l : bytes) : bytes := map (fun c => if c =? c_plus then c_sp else c) l.
+
+(* percent_encoding::percent_decode: %XX with two hex digits is one byte, any
+   other '%' stays *)
+Fixpoint pct_decode (l : bytes) : bytes :=
+  match l with
+  | [] => []
+  | c :: r =>
+      if c =? c_pct then
+        match r with
+        | h :: r1 =>
+            match r1 with
+            | lo :: r2 =>
+                match hexval h, hexval lo with
+                | Some a, Some b => (16 * a + b) :: pct_decode r2
+                | _, _ => c :: pct_decode r
+                end
+            | [] => c :: pct_decode r
+            end
+        | [] => [c]
+        end
+      else c :: pct_decode r
+  end.
+
+Definition url_decode (l : bytes) : bytes := pct_decode (replace_plus l).
+
+(* form_urlencoded::parse *)
+Definition parse_pairs (raw : bytes) : list (bytes * bytes) :=
+  flat_map (fun piece =>
+              match piece with
+              | [] => []
+              | _ => let '(k, v) := split_first c_eq piece in
+                     [(url_decode k, url_decode (match v with Some x => x | None => [] end))]
+              end)
+           (split_all c_amp raw).
+
+(* ------------------------------------------------------------- decoders -- *)
+(* the decoded request: the query text and the operation name, or a decoding
+   error (the integration answers 400 and nothing is executed) *)
+Inductive dreq := DErr | DReq (query : bytes) (opname : option bytes).
+
+Definition is_key (keys : list bytes) (k : bytes) : bool := existsb (bytes_eqb k) keys.
+
+Inductive wfield := FQuery | FOpName | FVars | FExt.
+
+Definition pqs_field (k : bytes) : option wfield :=
+  if is_key query_keys_pqs_gen k then Some FQuery
+  else if is_key opname_keys_pqs_gen k then Some FOpName
+  else if is_key variables_keys_pqs_gen k then Some FVars
+  else if is_key extensions_keys_pqs_gen k then Some FExt
+  else None.
+
+(* the derived Deserialize of RequestSerde: one slot per field, a second value
+   for a filled slot is the error `duplicate field` *)
+Record slots := { s_query : option bytes; s_op : option bytes; s_vars : option bytes; s_ext : option bytes }.
+Definition no_slots : slots := {| s_query := None; s_op := None; s_vars := None; s_ext := None |}.
+
+Definition put (s : slots) (f : wfield) (v : bytes) : option slots :=
+  match f with
+  | FQuery => match s_query s with Some _ => None
+              | None => Some {| s_query := Some v; s_op := s_op s; s_vars := s_vars s; s_ext := s_ext s |} end
+  | FOpName => match s_op s with Some _ => None
+               | None => Some {| s_query := s_query s; s_op := Some v; s_vars := s_vars s; s_ext := s_ext s |} end
+  | FVars => match s_vars s with Some _ => None
+             | None => Some {| s_query := s_query s; s_op := s_op s; s_vars := Some v; s_ext := s_ext s |} end
+  | FExt => match s_ext s with Some _ => None
+            | None => Some {| s_query := s_query s; s_op := s_op s; s_vars := s_vars s; s_ext := Some v |} end
+  end.
+
+Fixpoint fill (field_of : bytes -> option wfield) (ps : list (bytes * bytes)) (s : slots) : option slots :=
+  match ps with
+  | [] => Some s
+  | (k, v) :: r =>
+      match field_of k with
+      | None => fill field_of r s
+      | Some f => match put s f v with Some s' => fill field_of r s' | None => None end
+      end
+  end.
+
+(* parse_query_string on the pairs: `operation_name: request.operation_name`,
+   `..Request::new(request.query)` *)
+Definition decode_pqs_pairs (ps : list (bytes * bytes)) : dreq :=
+  match fill pqs_field ps no_slots with
+  | None => DErr
+  | Some s => DReq (match s_query s with Some q => q | None => [] end) (s_op s)
+  end.
+
+(* rocket's GraphQLQuery form (not executed, the harness imitates it): the
+   first value of `query` (required), of `operationName`, of `variables` *)
+Definition key_query : bytes := [113;117;101;114;121].
+Fixpoint first_value (keys : list bytes) (ps : list (bytes * bytes)) : option bytes :=
+  match ps with
+  | [] => None
+  | (k, v) :: r => if is_key keys k then Some v else first_value keys r
+  end.
+
+Definition decode_rocket_pairs (ps : list (bytes * bytes)) : dreq :=
+  match first_value [key_query] ps with
+  | None => DErr
+  | Some q => DReq q (first_value [opname_key_rocket_gen] ps)
+  end.
+
+Definition decode_pairs (i : integ) (ps : list (bytes * bytes)) : dreq :=
+  match get_decoder_gen i with
+  | DParseQueryString => decode_pqs_pairs ps
+  | DRocketForm => decode_rocket_pairs ps
+  end.
+
+Definition decode (i : integ) (raw : bytes) : dreq := decode_pairs i (parse_pairs raw).
+
+Definition opname_keys (i : integ) : list bytes :=
+  match get_decoder_gen i with
+  | DParseQueryString => opname_keys_pqs_gen
+  | DRocketForm => [opname_key_rocket_gen]
+  end.
+
+(* ------------------------------------------------------------- executor -- *)
+(* the spelling of the operation names of the document (interned name -> bytes) *)
+Definition nametab := list (name * bytes).
+
+Definition op_named (tab : nametab) (s : bytes) (o : operation) : bool :=
+  match op_name o with
+  | Some id => match assoc id tab with Some s' => bytes_eqb s s' | None => false end
+  | None => false
+  end.
 
 (* prepare_request: with an operation name the document must be a map of named
-   operations containing it (a single anonymous operation never matches);
-   without one the document must hold exactly one operation *)
-Definition select_op (d : document) (opname : option name) : option operation :=
+   operations containing exactly that name (a single anonymous operation never
+   matches); only without one the single-operation shortcut applies *)
+Definition select_op (d : document) (tab : nametab) (opname : option bytes) : option operation :=
   match opname with
-  | Some n => find (fun o => opname_eqb (op_name o) n) (doc_ops d)
+  | Some s => find (op_named tab s) (doc_ops d)
   | None => match doc_ops d with [o] => Some o | _ => None end
   end.
 
@@ -48,31 +228,77 @@ Definition guarded_execute (guard : bool) (o : operation) : gresult :=
   | OpSubscription => GError     (* not supported on this transport *)
   end.
 
-Definition handle_get (i : integ) (d : document) (opname : option name) : gresult :=
-  match select_op d opname with
+(* execution of a decoded request; [doc] is what the parser made of its query *)
+Definition execute_req (guard : bool) (doc : option document) (tab : nametab) (opname : option bytes) : gresult :=
+  match doc with
   | None => GError
-  | Some o => guarded_execute (get_guard i) o
+  | Some d => match select_op d tab opname with
+              | None => GError
+              | Some o => guarded_execute guard o
+              end
+  end.
+
+(* the whole GET branch: the decoded request and what came of it *)
+Definition handle_get (i : integ) (raw : bytes) (doc : option document) (tab : nametab) : dreq * gresult :=
+  match decode i raw with
+  | DErr => (DErr, GError)
+  | DReq q on => (DReq q on, execute_req (get_guard i) doc tab on)
   end.
 
 Definition mutation_runs (r : gresult) : N := match r with GError => 0 | GRan _ m => m end.
 Definition is_error (r : gresult) : bool := match r with GError => true | _ => false end.
 
 (* ------------------------------------------------------------------ spec -- *)
-(* the property text: a GET request never executes a mutation operation: it is
-   answered with an error and no mutation resolver runs *)
-Definition selects_mutation (d : document) (opname : option name) : bool :=
-  match select_op d opname with
-  | Some o => match op_ty o with OpMutation => true | _ => false end
-  | None => false
+(* Written from the property text and the GraphQL documents, not from the code.
+   GraphQL-over-HTTP: the GET parameter `operationName` (this server also reads
+   `operation_name`) is the name of the operation to execute; the value is the
+   parameter's value, an absent parameter is null.  GraphQL spec 6.1.1
+   GetOperation(document, operationName): null -> the document's only
+   operation (else error); otherwise the operation of that name (else error). *)
+Definition spec_opname (i : integ) (raw : bytes) : option bytes := first_value (opname_keys i) (parse_pairs raw).
+
+Definition spec_get_operation (d : document) (tab : nametab) (opname : option bytes) : option operation :=
+  match opname with
+  | None => match doc_ops d with [o] => Some o | _ => None end
+  | Some s =>
+      find (fun o => match op_name o with
+                     | None => false
+                     | Some id => match assoc id tab with Some s' => bytes_eqb s' s | None => false end
+                     end) (doc_ops d)
   end.
 
-Definition spec_ok (d : document) (opname : option name) (r : gresult) : bool :=
-  (mutation_runs r =? 0) && (negb (selects_mutation d opname) || is_error r).
+Definition designates_mutation (i : integ) (raw : bytes) (doc : option document) (tab : nametab) : bool :=
+  match doc with
+  | None => false
+  | Some d => match spec_get_operation d tab (spec_opname i raw) with
+              | Some o => match op_ty o with OpMutation => true | _ => false end
+              | None => false
+              end
+  end.
 
-(* known class 1: the integration has no operation-type test on its GET path
-   and the request selects a mutation *)
-Definition known_class (i : integ) (d : document) (opname : option name) : N :=
-  if negb (get_guard i) && selects_mutation d opname then 1 else 0.
+(* the property text: a GET request never executes a mutation operation: it is
+   answered with an error and no mutation resolver runs *)
+Definition spec_ok (i : integ) (raw : bytes) (doc : option document) (tab : nametab) (r : gresult) : bool :=
+  (mutation_runs r =? 0) && (negb (designates_mutation i raw doc tab) || is_error r).
+
+(* known class 1 = inputs on which TODAY'S MODEL ITSELF executes a mutation:
+   no operation-type test on the integration's GET path, the query string
+   decodes, and the executor's selection (name absent: single operation; name
+   present: the operation of exactly that name) yields a mutation operation.
+   Nothing else is excused: where the model answers with an error (empty,
+   blank or non-matching operation name, duplicate keys, syntax errors, ...)
+   the class is 0 and a mutation resolver run is verdict 4. *)
+Definition model_selects_mutation (i : integ) (raw : bytes) (doc : option document) (tab : nametab) : bool :=
+  match decode i raw, doc with
+  | DReq _ on, Some d => match select_op d tab on with
+                         | Some o => match op_ty o with OpMutation => true | _ => false end
+                         | None => false
+                         end
+  | _, _ => false
+  end.
+
+Definition known_class (i : integ) (raw : bytes) (doc : option document) (tab : nametab) : N :=
+  if negb (get_guard i) && model_selects_mutation i raw doc tab then 1 else 0.
 
 Definition gresult_eqb (a b : gresult) : bool :=
   match a, b with
@@ -81,12 +307,23 @@ Definition gresult_eqb (a b : gresult) : bool :=
   | _, _ => false
   end.
 
-(* [impl] is what the library answered when the decoded request was handed to
-   Schema::execute exactly as the integration's GET branch does.  A branch
-   with a local operation-type test is modelled from its source text only:
-   the executed path is not that branch, so nothing is compared. *)
-Definition check_case (i : integ) (d : document) (opname : option name) (impl : gresult) : N :=
+Definition dreq_eqb (a b : dreq) : bool :=
+  match a, b with
+  | DErr, DErr => true
+  | DReq q on, DReq q' on' => bytes_eqb q q' && option_eqb bytes_eqb on on'
+  | _, _ => false
+  end.
+
+(* [impl_d] is what the library's decoder made of the raw query string (query
+   text and operation name, byte for byte), [impl_r] what the library answered
+   when that request was handed to Schema::execute exactly as the integration's
+   GET branch does.  A branch with a local operation-type test is modelled from
+   its source text only: the executed path is not that branch, so nothing is
+   compared. *)
+Definition check_case (i : integ) (raw : bytes) (doc : option document) (tab : nametab)
+           (impl_d : dreq) (impl_r : gresult) : N :=
   if get_guard_local_gen i then 0
   else
-    let m := handle_get i d opname in
-    verdict (gresult_eqb impl m) (spec_ok d opname m) (spec_ok d opname impl) (known_class i d opname).
+    let '(md, mr) := handle_get i raw doc tab in
+    verdict (dreq_eqb impl_d md && gresult_eqb impl_r mr)
+            (spec_ok i raw doc tab mr) (spec_ok i raw doc tab impl_r) (known_class i raw doc tab).
